@@ -174,6 +174,7 @@ func genCommon(t *rapid.T, mode string) Case {
 	c.EOFData = rapid.IntRange(0, 3).Draw(t, "eofdata") == 3
 	c.Rich = rapid.IntRange(0, 2).Draw(t, "rich") == 2
 	c.Named = rapid.IntRange(0, 3).Draw(t, "named") == 3
+	c.Used = rapid.IntRange(0, 2).Draw(t, "used") == 0
 	return c
 }
 
@@ -414,6 +415,10 @@ func Classify(c Case) (bool, []string) {
 	}
 	if c.Named {
 		add("variant:named-type")
+	}
+	if c.Used {
+		add("variant:instance-used-before-and-after")
+		nt = true
 	}
 	if c.Ptr {
 		add("variant:pointer-source")
